@@ -55,6 +55,20 @@ def effects_of(e, s, has_loops):
             ap = terms.access_path(('ref', ev[1]))
             if ap and ap[0] == 1:
                 out.append((terms.strip_some(ap[1]), 'assign', (ev[2],), ev))
+        elif ev[0] == 'call' and ev[1] in e.p.bodies:
+            # an opaque repository helper that gets `&mut` access to (a field of) self: an effect the model does not know
+            shared = ev[9] if len(ev) > 9 else ()
+            for ai, a in enumerate(ev[2]):
+                if ai < len(shared) and shared[ai]:
+                    continue
+                try:
+                    tp = models.vec_place(e, s.state, a) if a[0] in ('ref', 'pure', 'call') else None
+                except Exception:
+                    tp = None
+                ap = terms.access_path(('ref', tp)) if tp is not None else None
+                if ap and ap[0] == 1:
+                    out.append((terms.strip_some(ap[1]), 'opaque:' + ev[1].split('::')[-1], tuple(ev[2]), ev))
+                    break
         elif ev[0] == 'call' and models.MUTATOR_RE.search(ev[1]) and ev[2] and ev[1].split('::')[-1] not in ts.NOT_OPS:
             if re.search(r'option::Option::<T>::(take|replace|insert)$|mem::(replace|take)$', ev[1]):
                 continue      # modelled by PX as a store of the new value (the 'assign' effect above); not a second effect
